@@ -1,6 +1,7 @@
 import Unimock.Model.Assemble
 import Unimock.Generated.TupleImpls
 import Unimock.Lemmas.State
+import Unimock.Lemmas.Typestate
 /-!
 # C14 — clause composition preserves order and rejects inconsistent setups up front
 
@@ -241,5 +242,81 @@ theorem C14_new_mock_error_iff (fb : Fallback) (c : ClauseTree α ρ) :
     obtain ⟨a', ha⟩ := h
     simp only [ha]
     exact ⟨_, rfl⟩
+
+/-! ## the compile-time half: which builder chains type-check (Model/Typestate) -/
+
+open Typestate in
+theorem run_inOrder_no_atLeast (s s' : St) (cs : List Call) (h : run s cs = some s') (ho : s.ord = .inOrder) :
+    Call.atLeastTimes ∉ cs := by
+  induction cs generalizing s with
+  | nil => simp
+  | cons c cs ih =>
+    rw [run_cons] at h
+    cases hs : step s c with
+    | none => simp [hs] at h
+    | some s1 =>
+      simp only [hs, Option.bind_some] at h
+      have ho1 : s1.ord = .inOrder := by rw [step_ord s s1 c hs, ho]
+      intro hmem
+      rcases List.mem_cons.1 hmem with hc | hc
+      · subst hc
+        have := step_atLeast_anyOrder s s1 hs
+        rw [ho] at this; cases this
+      · exact ih s1 h ho1 hc
+
+open Typestate in
+/-- **C14, ordered patterns can only be given exact counts** (compile time): no chain that starts with
+    `next_call` and type-checks contains `at_least_times`, at any position (also after `then()`). -/
+theorem C14_ordered_only_exact_counts (cs : List Call) (h : accepts .nextCall cs = true) :
+    Call.atLeastTimes ∉ cs := by
+  unfold accepts at h
+  cases hr : run Entry.nextCall.start cs with
+  | none => simp [hr] at h
+  | some s' => exact run_inOrder_no_atLeast _ s' cs hr rfl
+
+open Typestate in
+theorem run_then_position (s s' : St) (cs : List Call) (h : run s cs = some s') (i : Nat)
+    (hi : cs[i]? = some .then_) :
+    (i = 0 ∧ s = .quantified s.ord .exact) ∨ ∃ j, i = j + 1 ∧ (cs[j]? = some .once ∨ cs[j]? = some .nTimes) := by
+  induction cs generalizing s i with
+  | nil => simp at hi
+  | cons c cs ih =>
+    rw [run_cons] at h
+    cases hs : step s c with
+    | none => simp [hs] at h
+    | some s1 =>
+      simp only [hs, Option.bind_some] at h
+      cases i with
+      | zero =>
+        simp only [List.getElem?_cons_zero, Option.some.injEq] at hi
+        subst hi
+        exact .inl ⟨rfl, step_then s s1 hs⟩
+      | succ k =>
+        simp only [List.getElem?_cons_succ] at hi
+        rcases ih s1 h k hi with ⟨hk, hq⟩ | ⟨j, hj, hprev⟩
+        · right
+          refine ⟨0, by omega, ?_⟩
+          rw [hq] at hs
+          simpa using step_to_exact s c _ hs
+        · exact .inr ⟨j + 1, by omega, by simpa using hprev⟩
+
+open Typestate in
+/-- **C14, `then()` can only follow an exact count** (compile time): in every chain that type-checks,
+    each `then()` is immediately preceded by `once()` or `n_times(_)`. -/
+theorem C14_then_only_after_exact (e : Entry) (cs : List Call) (h : accepts e cs = true) (i : Nat)
+    (hi : cs[i]? = some .then_) : ∃ j, i = j + 1 ∧ (cs[j]? = some .once ∨ cs[j]? = some .nTimes) := by
+  unfold accepts at h
+  cases hr : run e.start cs with
+  | none => simp [hr] at h
+  | some s' =>
+    rcases run_then_position e.start s' cs hr i hi with ⟨_, hq⟩ | h2
+    · cases e <;> simp [Entry.start] at hq
+    · exact h2
+
+open Typestate in
+example : accepts .nextCall [.other, .nTimes, .then_, .other] = true ∧ accepts .nextCall [.other, .atLeastTimes] = false ∧
+    accepts .someCall [.other, .atLeastTimes] = true ∧ accepts .someCall [.other, .atLeastTimes, .then_] = false ∧
+    accepts .someCall [.other, .then_] = false ∧ accepts .nextCall [] = false ∧ accepts .stubCall [.other, .once, .then_] = true := by
+  decide
 
 end Unimock
